@@ -48,8 +48,24 @@ func (w *VerifWriter) Invoke(msgs []actor.Envelope) {
 			w.Panicked(v)
 		}
 	}()
+	for i, m := range msgs {
+		if c, ok := m.Msg.(VerifConnectMsg); ok {
+			if i > 0 {
+				w.streamWriter.Invoke(msgs[:i])
+			}
+			w.stream = c.Stream
+			if i+1 < len(msgs) {
+				w.Invoke(msgs[i+1:])
+			}
+			return
+		}
+	}
 	w.streamWriter.Invoke(msgs)
 }
+
+// VerifConnectMsg, sent to a VerifWriter, is the moment its init() completes: everything queued before
+// it goes through Invoke without a stream, everything behind it with c.Stream.
+type VerifConnectMsg struct{ Stream DRPCRemote_ReceiveStream }
 
 func VerifNewRunningWriter(e *actor.Engine, addr string, stream DRPCRemote_ReceiveStream, conn net.Conn, panicked func(any)) *VerifWriter {
 	w := newStreamWriter(e, nil, addr, nil, 0).(*streamWriter)
